@@ -43,7 +43,15 @@ def libs():
     return _mods["mx"], _mods["pd"], _mods["sys"]
 
 
-SPACES = ("A", "B")
+SPACES = ("A", "B", "K")      # K is a CHILD space of A (it goes away with A)
+
+
+def sp_impl(impl, s):
+    """Impl of the space called s in this world, or None."""
+    if s == "K":
+        a = impl.named_spaces.get("A") if "A" in impl.named_spaces else None
+        return a.named_spaces["K"] if a is not None and "K" in a.named_spaces else None
+    return impl.named_spaces[s] if s in impl.named_spaces else None
 CLOSED = {"open": False, "base": False, "sp": [], "refs": [], "v2r": [], "specs": [], "gs": []}
 
 
@@ -103,7 +111,7 @@ class World:
         for name in init["models"]:
             m = mx.new_model(name)
             for s in SPACES:
-                sp = m.new_space(s)
+                sp = m.new_space(s) if s != "K" else m.A.new_space(s)
                 sp.new_cells("c", formula="lambda: 1")
             if name in init["base"]:
                 m.B.add_bases(m.A)
@@ -168,7 +176,7 @@ class World:
 
     def parent(self, m, sp):
         model = self.models[m]
-        return model if sp == "" else model.spaces[sp]
+        return model if sp == "" else sp_impl(model._impl, sp).interface
 
     def msrc(self, v, gen=0):
         """Source file of module value id v."""
@@ -184,17 +192,17 @@ class World:
         if not self.is_open(name):
             return dict(CLOSED)
         impl = m._impl
-        sps = [s for s in SPACES if s in impl.named_spaces]
+        sps = [s for s in SPACES if sp_impl(impl, s) is not None]
         refs = []
         for n, r in impl.global_refs.items():
             if n != "__builtins__":
                 refs.append({"sp": "", "n": n, "v": self.vid(r.interface, name), "d": False})
         for s in sps:
-            for n, r in impl.named_spaces[s].own_refs.items():
+            for n, r in sp_impl(impl, s).own_refs.items():
                 refs.append({"sp": s, "n": n, "v": self.vid(r.interface, name),
                              "d": bool(r.is_derived())})
         base = False
-        if len(sps) == 2:
+        if "A" in sps and "B" in sps:
             base = any(b is m.spaces["A"] for b in m.spaces["B"]._direct_bases)
         v2r = []
         for key, rs in impl.refmgr._valid_to_refs.items():
@@ -242,7 +250,7 @@ class World:
             if not self.is_open(name):
                 continue
             impl = m._impl
-            spaces = [impl.named_spaces[s] for s in SPACES if s in impl.named_spaces]
+            spaces = [sp_impl(impl, s) for s in SPACES if sp_impl(impl, s) is not None]
             for refs in [impl.global_refs] + [s.own_refs for s in spaces]:
                 for n, r in refs.items():
                     o = r.interface
@@ -291,7 +299,7 @@ class World:
             elif k == "remove_base":
                 m.spaces["B"].remove_bases(m.spaces["A"])
             elif k == "del_space":
-                delattr(m, op["sp"])
+                delattr(m if op["sp"] != "K" else m.A, op["sp"])
             elif k == "close":
                 m.close()
             elif k == "write_read":
@@ -327,14 +335,14 @@ class World:
             rspecs = sorted(cspecs)
             # references bound to modelx objects: bound to the corresponding object of the copy
             cobj = {}
-            for sname in SPACES:
+            for sname in ("A", "B"):
                 if sname in copy._impl.named_spaces:
                     sp = copy.spaces[sname]
                     cobj[101 if sname == "A" else 103] = sp
                     cobj[102 if sname == "A" else 104] = sp.cells["c"]
             for r in src_refs:
                 if r["v"] >= 100:
-                    cpar = copy._impl if r["sp"] == "" else copy._impl.named_spaces.get(r["sp"])
+                    cpar = copy._impl if r["sp"] == "" else sp_impl(copy._impl, r["sp"])
                     crefs = None if cpar is None else (
                         cpar.global_refs if r["sp"] == "" else cpar.own_refs)
                     cr = crefs[r["n"]] if crefs is not None and r["n"] in crefs else None
@@ -360,8 +368,8 @@ class World:
                         if r.interface is rv:
                             got.append(("", n))
                     for sname in SPACES:
-                        if sname in cimpl.named_spaces:
-                            for n, r in cimpl.named_spaces[sname].own_refs.items():
+                        if sp_impl(cimpl, sname) is not None:
+                            for n, r in sp_impl(cimpl, sname).own_refs.items():
                                 if r.interface is rv:
                                     got.append((sname, n))
                     ent["refs_ok"] = (sorted(got) == want)
